@@ -225,11 +225,11 @@ PLANS["C08"] = {
             "vectors, push/pop histories; non-trivial = interpolants were printed",
 }
 PLANS["C09"] = {
-    "jobs": lambda seed, tier: itp_jobs(seed, "C09", N(tier, 120, 2400), 3) + itp_jobs(seed, "C09b", N(tier, 20, 400), 4) +
+    "jobs": lambda seed, tier: itp_jobs(seed, "C09", N(tier, 80, 1600), 3) + itp_jobs(seed, "C09b", N(tier, 16, 320), 4) +
                                # proof-sensitive labelling (algorithms 3, 4, 5) on propositional structure with many named clauses
                                [dict(j, itp_opts=[(":interpolation-bool-algorithm", str([3, 5, 3, 5, 4][i % 5]))], n_named=7, n_atoms=4, splits=3,
                                      logic=["QF_BOOL", "QF_UF", "QF_BOOL", "QF_LRA"][i % 4], groups=[3, 3, 4][i % 3])
-                                for i, j in enumerate(spread(seed, "C09p", N(tier, 70, 1400), ["QF_BOOL"], "itp"))],
+                                for i, j in enumerate(spread(seed, "C09p", N(tier, 50, 1000), ["QF_BOOL"], "itp"))],
     "rule": "as C08 with 3 or 4 ordered groups; every interpolant is checked as a Craig interpolant of prefix versus rest and "
             "every consecutive pair for the path property",
 }
